@@ -3,6 +3,7 @@ package props
 import (
 	"fmt"
 	"go/token"
+	"go/types"
 
 	"golang.org/x/tools/go/ssa"
 
@@ -76,57 +77,11 @@ func runC10(p *core.Program, r *core.Report) {
 	}
 	// entryOf: v is a load of field `field` of &X.children[idx]; returns (X, idx)
 	entryField := func(v ssa.Value, field string) (ssa.Value, ssa.Value, bool) {
-		u, ok := v.(*ssa.UnOp)
-		if !ok || u.Op != token.MUL {
-			return nil, nil, false
-		}
-		fa, ok := u.X.(*ssa.FieldAddr)
-		if !ok || !isFieldOf(fa, "entry", field) {
-			return nil, nil, false
-		}
-		ia, ok := fa.X.(*ssa.IndexAddr)
-		if !ok {
-			return nil, nil, false
-		}
-		ca, ok := ia.X.(*ssa.FieldAddr)
-		if !ok || !isFieldOf(ca, "node", "children") {
-			return nil, nil, false
-		}
-		return ca.X, ia.Index, true
+		return entryOrCopyField(v, field)
 	}
 	isRemovedTest := func(v ssa.Value) (ssa.Value, ssa.Value, bool) {
 		// direct load or load through a local copy "l := n.children[i]; l.isRemoved"
-		if n, i, ok := entryField(v, "isRemoved"); ok {
-			return n, i, true
-		}
-		if u, ok := v.(*ssa.UnOp); ok && u.Op == token.MUL {
-			if fa, ok := u.X.(*ssa.FieldAddr); ok && isFieldOf(fa, "entry", "isRemoved") {
-				if al, ok := fa.X.(*ssa.Alloc); ok {
-					// the cell's single store is a load of &n.children[i]
-					for _, rf := range *al.Referrers() {
-						if st, ok := rf.(*ssa.Store); ok && st.Addr == ssa.Value(al) {
-							if lu, ok := st.Val.(*ssa.UnOp); ok && lu.Op == token.MUL {
-								if ia, ok := lu.X.(*ssa.IndexAddr); ok {
-									if ca, ok := ia.X.(*ssa.FieldAddr); ok && isFieldOf(ca, "node", "children") {
-										return ca.X, ia.Index, true
-									}
-								}
-							}
-						}
-					}
-				}
-			}
-		}
-		if f, ok := v.(*ssa.Field); ok && fieldName(f.X.Type(), f.Field) == "isRemoved" {
-			if lu, ok := f.X.(*ssa.UnOp); ok && lu.Op == token.MUL {
-				if ia, ok := lu.X.(*ssa.IndexAddr); ok {
-					if ca, ok := ia.X.(*ssa.FieldAddr); ok && isFieldOf(ca, "node", "children") {
-						return ca.X, ia.Index, true
-					}
-				}
-			}
-		}
-		return nil, nil, false
+		return entryOrCopyField(v, "isRemoved")
 	}
 	liveGuard := func(fn *ssa.Function, b *ssa.BasicBlock, node, idx ssa.Value) bool {
 		return boolGuard(fn, b, func(v ssa.Value) bool {
@@ -552,6 +507,30 @@ func runC10(p *core.Program, r *core.Report) {
 					}
 				}
 			}
+			// the same copy written as a range over the upper half n.children[n.m:]:
+			// same index on both sides, and the slice holds exactly m entries
+			// (array length = 2 * the constant stored to n.m)
+			rangeForm := false
+			if lu, ok := st.Val.(*ssa.UnOp); ok && !okSrc {
+				if sa, ok := lu.X.(*ssa.IndexAddr); ok && sa.Index == ia.Index {
+					if sl, ok := sa.X.(*ssa.Slice); ok && sl.High == nil && sl.Low != nil && isLoadOfField(sl.Low, "node", "m") {
+						if sc, ok := sl.X.(*ssa.FieldAddr); ok && isFieldOf(sc, "node", "children") && sc.X == ssa.Value(fn.Params[1]) {
+							if si, ok := classifyScan(x, fn, ia.Index, sl); ok && si.dir == +1 && ca.X == sib {
+								if arr, ok := sc.Type().(*types.Pointer).Elem().Underlying().(*types.Array); ok {
+									for _, ms := range fieldStores([]*ssa.Function{fn}, "node", "m") {
+										if k, ok := path.IntConst(ms.Val); ok && 2*k == arr.Len() && ms.Block().Dominates(st.Block()) {
+											rangeForm = true
+										}
+									}
+								}
+							}
+						}
+					}
+				}
+			}
+			if rangeForm {
+				okDst, okSrc = true, true
+			}
 			c.ob("PV2", fname, "upper half copied entry by entry", p.InstrPos(st), okDst && okSrc, "split must copy n.children[n.m+i] into sibling.children[i] with i scanning forward")
 			// unconditional within the loop: no per-entry decision
 			decs := 0
@@ -567,7 +546,7 @@ func runC10(p *core.Program, r *core.Report) {
 			okB := guardedBy(fn, st.Block(), func(cd path.Cond, truth bool) bool {
 				return normCmp(cd.Op, truth) == "<" && cd.X == ia.Index && x.path(cd.Y) == "n.m"
 			})
-			c.ob("PT5", fname, "copies m entries", p.InstrPos(st), okB, "the copy loop must run while i < n.m")
+			c.ob("PT5", fname, "copies m entries", p.InstrPos(st), okB || rangeForm, "the copy loop must run while i < n.m")
 		}
 		c.ob("PV2", fname, "one copy site", c.fpos(fn), nCopy == 1, "expected exactly one entry copy in split")
 		for _, b := range fn.Blocks {
@@ -761,17 +740,7 @@ func runC10(p *core.Program, r *core.Report) {
 // entryOrCopyField: v is field `field` of n.children[i], read directly or through
 // a local by-value copy of the entry.
 func entryOrCopyField(v ssa.Value, field string) (ssa.Value, ssa.Value, bool) {
-	fromAddr := func(addr ssa.Value) (ssa.Value, ssa.Value, bool) {
-		ia, ok := addr.(*ssa.IndexAddr)
-		if !ok {
-			return nil, nil, false
-		}
-		ca, ok := ia.X.(*ssa.FieldAddr)
-		if !ok || !isFieldOf(ca, "node", "children") {
-			return nil, nil, false
-		}
-		return ca.X, ia.Index, true
-	}
+	fromAddr := childrenAt
 	switch x := v.(type) {
 	case *ssa.UnOp:
 		if x.Op != token.MUL {
@@ -842,4 +811,22 @@ func rootAlloc(v ssa.Value) (*ssa.Alloc, bool) {
 		}
 	}
 	return nil, false
+}
+
+// childrenAt: addr is &X.children[idx], indexed directly or through a prefix slice
+// X.children[:k] (same coordinates); returns (X, idx).
+func childrenAt(addr ssa.Value) (ssa.Value, ssa.Value, bool) {
+	ia, ok := addr.(*ssa.IndexAddr)
+	if !ok {
+		return nil, nil, false
+	}
+	base := ia.X
+	if sl, ok := base.(*ssa.Slice); ok && sl.Low == nil {
+		base = sl.X
+	}
+	ca, ok := base.(*ssa.FieldAddr)
+	if !ok || !isFieldOf(ca, "node", "children") {
+		return nil, nil, false
+	}
+	return ca.X, ia.Index, true
 }
